@@ -284,6 +284,17 @@ where
             1 => { let _ = w.on_return(th, gret(r)).map(|_| ()); }
             _ => { w = mk(init(r)); apply(&mut w, &evs); }
         }
+        // near pair for the linearizability tester: ANOTHER interleaving of the same per-thread programs — the same
+        // operations and returns per thread, but (usually) different real-time precedence between threads
+        if lin {
+            let evs3 = interleave(r, &progs);
+            let mut x = mk(obj.clone());
+            apply(&mut x, &evs3);
+            let (_, vx) = tester_sx(&format!("{:?}", x), k, lin);
+            out.m(&format!("toks {} {} ()", ty, vx), &toks_sx(&record(&x)));
+            out.o(&format!("o-pair {} {} {} {} {} any", ty, va, vx, sx::b(ta == record(&x)), sx::b(a == x)));
+            out.stat(if a == x { "tester-other-interleaving-equal" } else { "tester-other-interleaving-different" });
+        }
         let (_, vw) = tester_sx(&format!("{:?}", w), k, lin);
         out.m(&format!("toks {} {} ()", ty, vw), &toks_sx(&record(&w)));
         out.o(&format!("o-pair {} {} {} {} {} any", ty, va, vw, sx::b(ta == record(&w)), sx::b(a == w)));
